@@ -1,7 +1,7 @@
-\* C42 leg A quick (2): several intervals (grid 0..8, split interval 4), steps {1,2,4}, world 2,
+\* C42 leg A quick (2): several intervals (grid 0..6, split interval 4), steps {1,2,4}, world 2,
 \* every history of at most 2 queries (+ cache losses); serialises the histories for the harness
 SPECIFICATION Spec
-CONSTANTS T = 8
+CONSTANTS T = 6
           StepSet = {1, 2, 4}
           Common = {1, 2, 4}
           Ivs = {4}
